@@ -84,7 +84,7 @@ def _build_driver(kind, extract_v, drivers):
     return True, log
 
 
-SPEC_DRIVERS = [("spec_driver.ml", ["instr_print.ml"])]
+SPEC_DRIVERS = [("spec_driver.ml", ["instr_print.ml"]), ("refmachine.ml", [])]
 MODEL_DRIVERS = [("model_driver.ml", [])]
 
 
